@@ -88,7 +88,7 @@ type c18Method struct {
 func c18Eval(classes []*jg.Class, metas map[*jg.Class][]c18Method, layout jg.Layout) engine.Result {
 	var files []FileSpec
 	for _, cls := range classes {
-		files = append(files, FileSpec{Path: "src/" + cls.Name + ".java", Content: jg.Print(cls, layout)})
+		files = append(files, FileSpec{Path: c18Path(cls), Content: jg.Print(cls, layout)})
 	}
 	res := engine.Result{InputKey: filesKey(files), Input: filesInput(files), Nontrivial: true}
 	if why := validateJava(files); why != "" {
@@ -218,11 +218,20 @@ func c18ClassGen(c *engine.C) engine.Case {
 	return func() engine.Result { return c18Eval(classes, metas, layout) }
 }
 
+// c18Path: classes of package p lie directly in src/, others below a directory named after their package.
+func c18Path(cls *jg.Class) string {
+	if cls.Pkg == "p" {
+		return "src/" + cls.Name + ".java"
+	}
+	return "src/" + cls.Pkg + "/" + cls.Name + ".java"
+}
+
 func c18BuildClasses(c *engine.C) ([]*jg.Class, map[*jg.Class][]c18Method, jg.Layout) {
 	layout, _ := pickLayout(c)
 	nc := []int{1, 2}[c.Choose(2, "classes")]
 	var classes []*jg.Class
 	metas := map[*jg.Class][]c18Method{}
+	var shapes0 []int
 	for ci := 0; ci < nc; ci++ {
 		pfx := fmt.Sprintf("k%d-", ci)
 		name := c18ClassNames[c.Choose(len(c18ClassNames), pfx+"name")]
@@ -236,13 +245,27 @@ func c18BuildClasses(c *engine.C) ([]*jg.Class, map[*jg.Class][]c18Method, jg.La
 			}
 			name = rest[c.Choose(len(rest), pfx+"name2")]
 		}
-		cls := &jg.Class{Pkg: "p", Name: name, Kind: "class", Mods: []string{"public"}, Imports: []string{"javax.annotation.Nullable", "javax.annotation.CheckForNull"}}
+		pkg := "p"
+		mirror := false
+		if ci == 1 && c.Bool(pfx+"same-simple-name-in-another-package") {
+			// by default the like-named class mirrors the method shapes of the first one
+			name, pkg, mirror = classes[0].Name, "q", true
+			c.Tag("same-simple-name")
+		}
+		cls := &jg.Class{Pkg: pkg, Name: name, Kind: "class", Mods: []string{"public"}, Imports: []string{"javax.annotation.Nullable", "javax.annotation.CheckForNull"}}
 		cls.Members = append(cls.Members, jg.Member{Field: &jg.Field{Mods: []string{"private"}, Type: "Object", Name: "x"}},
 			jg.Member{Field: &jg.Field{Mods: []string{"private"}, Type: "Object", Name: "nullable"}},
 			jg.Member{Field: &jg.Field{Mods: []string{"private"}, Type: "boolean", Name: "flag"}})
 		nm := []int{1, 2, 3, 0}[c.Choose(4, pfx+"methods")]
 		for mi := 0; mi < nm; mi++ {
-			shape := c18Returns[c.Choose(len(c18Returns), fmt.Sprintf("%sm%d-shape", pfx, mi))]
+			si := c.Choose(len(c18Returns), fmt.Sprintf("%sm%d-shape", pfx, mi))
+			if mirror && mi < len(shapes0) {
+				si = (si + shapes0[mi]) % len(c18Returns)
+			}
+			if ci == 0 {
+				shapes0 = append(shapes0, si)
+			}
+			shape := c18Returns[si]
 			mname := fmt.Sprintf("op%d", mi)
 			switch c.Choose(3, fmt.Sprintf("%sm%d-name-style", pfx, mi)) {
 			case 1:
